@@ -51,6 +51,7 @@ structure UView where
   positionTimestamp : Option Int
   cpr : Nat × Nat × Nat × Nat
   cprTime : Int × Int
+  cprSurf : Bool × Bool
   grspeed : Option Nat
   track : Option Nat
   vrate : Option Int
@@ -62,33 +63,34 @@ deriving DecidableEq
 def uview (p : Plane) : UView :=
   { ais := p.ais, altitude := p.altitude, squawk := p.squawk, lat := p.lat, lon := p.lon, distance := p.distance,
     positionTimestamp := p.positionTimestamp, cpr := (p.cprLat0, p.cprLat1, p.cprLon0, p.cprLon1),
-    cprTime := (p.cprTime0, p.cprTime1), grspeed := p.grspeed, track := p.track, vrate := p.vrate,
+    cprTime := (p.cprTime0, p.cprTime1), cprSurf := (p.cprSurf0, p.cprSurf1), grspeed := p.grspeed, track := p.track, vrate := p.vrate,
     category := p.category, surveillanceStatus := p.surveillanceStatus, timestamp := p.timestamp }
 
 /-- position decoding looks at the CPR slots and times only -/
 theorem posDecode_view (p q : Plane) (tc form : Nat)
     (h : (p.cprLat0, p.cprLat1, p.cprLon0, p.cprLon1) = (q.cprLat0, q.cprLat1, q.cprLon0, q.cprLon1))
-    (ht : (p.cprTime0, p.cprTime1) = (q.cprTime0, q.cprTime1)) :
+    (ht : (p.cprTime0, p.cprTime1) = (q.cprTime0, q.cprTime1))
+    (hs : (p.cprSurf0, p.cprSurf1) = (q.cprSurf0, q.cprSurf1)) :
     p.posDecode tc form = q.posDecode tc form := by
-  simp only [Prod.mk.injEq] at h ht
+  simp only [Prod.mk.injEq] at h ht hs
   unfold Plane.posDecode
-  rw [h.1, h.2.1, h.2.2.1, h.2.2.2, ht.1, ht.2]
+  rw [h.1, h.2.1, h.2.2.1, h.2.2.2, ht.1, ht.2, hs.1, hs.2]
 
 theorem storeCpr_view (env : Env) (p q : Plane) (tc : Nat) (c : Option (Nat × Nat × Nat))
     (h : uview p = uview q) : uview (p.storeCpr env tc c) = uview (q.storeCpr env tc c) := by
   have hf := h
   simp only [uview, UView.mk.injEq, Prod.mk.injEq] at hf
-  obtain ⟨h1, h2, h3, h4, h5, h6, h7, ⟨h8a, h8b, h8c, h8d⟩, ⟨h9a, h9b⟩, h10, h11, h12, h13, h14, h15⟩ := hf
+  obtain ⟨h1, h2, h3, h4, h5, h6, h7, ⟨h8a, h8b, h8c, h8d⟩, ⟨h9a, h9b⟩, ⟨hsa, hsb⟩, h10, h11, h12, h13, h14, h15⟩ := hf
   unfold Plane.storeCpr
   cases c with
   | none => exact h
   | some c =>
     simp only
-    have hs : (p.setCprSlot c).posDecode tc c.1 = (q.setCprSlot c).posDecode tc c.1 := by
-      apply posDecode_view <;> simp [Plane.setCprSlot, h8a, h8b, h8c, h8d, h9a, h9b, h15]
+    have hs : (p.setCprSlot tc c).posDecode tc c.1 = (q.setCprSlot tc c).posDecode tc c.1 := by
+      apply posDecode_view <;> simp [Plane.setCprSlot, h8a, h8b, h8c, h8d, h9a, h9b, hsa, hsb, h15]
     unfold Plane.updatePosition
     rw [hs]
-    cases (q.setCprSlot c).posDecode tc c.1 with
+    cases (q.setCprSlot tc c).posDecode tc c.1 with
     | none => simp [uview, Plane.setCprSlot, *]
     | some ll => cases env.dist <;> simp [uview, Plane.setCprSlot, *]
 
